@@ -410,6 +410,13 @@ func (c *FnCtx) convert(st *State, v SV, from, to types.Type) SV {
 		}
 		if tb != nil && tb.Info()&types.IsString != 0 {
 			if sl, ok := v.(Sl); ok {
+				if eb := basicOf(from.Underlying().(*types.Slice).Elem()); eb != nil && eb.Kind() == types.Uint8 && !c.modeBV {
+					// string(b) is a function of the bytes b holds now (same function the
+					// specification builtin bytestext and the io.Writer models use)
+					r := c.vc.Name("b2s", c.sliceText(st, v))
+					c.vc.Assert(Eq(c.strLen(r), sl.Len))
+					return Sc{r}
+				}
 				r := c.vc.Fresh("str", SStr)
 				c.vc.Assert(Eq(c.strLen(r), sl.Len))
 				return Sc{r}
